@@ -74,6 +74,18 @@ func snapshotPhase1(res *scn.Result) {
 		res.Probes["unbuffered_channel_rendezvous"] = zzsim.Rendezvous
 	}
 	res.Faults["forced_gc"] = zzsim.GCFired
+	if zzsim.ClockJumpFaults > 0 {
+		res.Faults["clock_jump"] = zzsim.ClockJumpFaults
+	}
+	if zzsim.TimersFired > 0 {
+		res.Probes["simulated_timers_fired"] = zzsim.TimersFired
+	}
+	if zzsim.SleepsDone > 0 {
+		res.Probes["simulated_sleeps"] = zzsim.SleepsDone
+	}
+	if zzsim.ClockJumps > 0 {
+		res.Probes["clock_moved_to_next_event_because_nobody_could_run"] = zzsim.ClockJumps
+	}
 	if zzsim.FinalizersRun > 0 {
 		res.Faults["finalizers_run_as_simulated_task"] = zzsim.FinalizersRun
 	}
